@@ -262,7 +262,11 @@ def strip_generics(path):
 class Facts:
     def __init__(self, path):
         with open(path) as f:
-            self.j = json.load(f)
+            txt = f.read()
+        # in no_std configurations rustc prints alloc items through the crate's own `pub mod alloc`
+        # re-export (`alloc::alloc::vec::Vec`); normalise to the names used in std builds
+        txt = txt.replace('alloc::alloc::', 'std::')
+        self.j = json.loads(txt)
         self.path = path
         self.crate = self.j['crate']
         self.config = self.j['config']
